@@ -28,10 +28,21 @@ from .value import (
 )
 
 
+def _is_subclass_pattern(value: Value) -> bool:
+    # type[A], or a union containing one, as produced by issubclass(x, (A, B)):
+    # a plain `type` matches such a pattern only because we cannot know which
+    # class it is, so it must not be narrowed away by it.
+    if isinstance(value, SubclassValue):
+        return True
+    return isinstance(value, MultiValuedValue) and any(
+        isinstance(subval, SubclassValue) for subval in value.vals
+    )
+
+
 def is_universally_assignable(value: Value, target_value: Value) -> bool:
     if value is NO_RETURN_VALUE or isinstance(value, AnyValue):
         return True
-    elif value == TypedValue(type) and isinstance(target_value, SubclassValue):
+    elif value == TypedValue(type) and _is_subclass_pattern(target_value):
         return True
     elif isinstance(value, AnnotatedValue):
         return is_universally_assignable(value.value, target_value)
